@@ -54,7 +54,10 @@ type c05Obj struct {
 	kind  string // cert pkcs8 pkix pkcs1pub sec1 pkcs1priv dsapriv
 	tag   string
 	der   []byte
-	extra bool // one of the further variants of c05MoreKinds (fewer mutants in the quick tier)
+	extra bool   // one of the further variants of c05MoreKinds (fewer mutants in the quick tier)
+	mark  string // c05IntObjects: "~field=value", appended to the kind in the case's name
+	oos   bool   // not a well-formed object (a value its field cannot have): correspondence only
+	light bool   // c05IntObjects: a sample of the presentations in the quick tier
 }
 
 var c05Kinds = []string{"cert", "pkcs8", "pkix", "pkcs1pub", "sec1", "pkcs1priv", "dsapriv"}
@@ -379,10 +382,10 @@ func c05ReadLimit(c *Ctx, o c05Obj, ref Sx) {
 			if d == 1 && !c.Thorough() {
 				continue
 			}
-			c05InspLim(c, o.kind+":"+p.tag+fmt.Sprintf(":len%+d", d), "object.lim", p.data, ref, true, len(p.data)+d)
+			c05InspLim(c, o.kind+o.mark+":"+p.tag+fmt.Sprintf(":len%+d", d), "object.lim", p.data, ref, !o.oos, len(p.data)+d)
 		}
 		if len(p.data) > 8192 {
-			c05InspLim(c, o.kind+":"+p.tag+":8192", "object.lim", p.data, ref, true, 8192)
+			c05InspLim(c, o.kind+o.mark+":"+p.tag+":8192", "object.lim", p.data, ref, !o.oos, 8192)
 		}
 	}
 }
@@ -610,7 +613,9 @@ func c05Objects(c *Ctx) []c05Obj {
 	r := c.R
 	var objs []c05Obj
 	extra := false
-	add := func(kind, tag string, der []byte) { objs = append(objs, c05Obj{kind, tag, der, extra}) }
+	add := func(kind, tag string, der []byte) {
+		objs = append(objs, c05Obj{kind: kind, tag: tag, der: der, extra: extra})
+	}
 
 	// --- corpus: witnesses of past failures first ---
 	// 51-byte SEC1 P-256 key without public part: padded base64 wrapped at 64 with CRLF is itself one BER TLV
@@ -700,6 +705,10 @@ func c05Objects(c *Ctx) []c05Obj {
 	extra = true
 	c05MoreKinds(r, add)
 	extra = false
+	// --- every INTEGER field at the boundaries of the Go integer types; SEC1 from bytes (c05_ints.go) ---
+	c05IntObjects(r, func(kind, mark string, der []byte, inScope bool) {
+		objs = append(objs, c05Obj{kind: kind, tag: mark, der: der, extra: true, mark: mark, oos: !inScope, light: true})
+	})
 	// --- the repository's own fixtures (produced by OpenSSL) ---
 	dir := filepath.Join(repoDir(), "internal/file/testdata/x509/der")
 	ents, _ := os.ReadDir(dir)
@@ -1051,14 +1060,19 @@ func genC05(c *Ctx) {
 		refObs, _ := c05InspectFile(refPath)
 		c05RemoveFile(c, refPath)
 		// raw DER under several names (two of them reserved: outside the property, correspondence only)
-		c05Insp(c, o.kind+":der", "object.bin", o.der, refObs, true)
-		c05Insp(c, o.kind+":der-name", c05_randName(r), o.der, refObs, true)
+		kind := o.kind + o.mark
+		c05Insp(c, kind+":der", "object.bin", o.der, refObs, !o.oos)
+		c05Insp(c, kind+":der-name", c05_randName(r), o.der, refObs, !o.oos)
 		if oi%8 == 0 || c.Thorough() {
-			c05Insp(c, o.kind+":der-reserved-name", []string{"authorized_keys", "known_hosts", "sub/authorized_keys", ".ssh/known_hosts"}[r.Intn(4)], o.der, refObs, false)
+			c05Insp(c, kind+":der-reserved-name", []string{"authorized_keys", "known_hosts", "sub/authorized_keys", ".ssh/known_hosts"}[r.Intn(4)], o.der, refObs, false)
 		}
 		pres := append(b64Presentations(o.der), pemPresentations(r, c05Labels[o.kind], o.der)...)
 		small := len(o.der) <= 128
 		for pi, p := range pres {
+			// the integer sweep, quick tier: the bare block, one block between text, a thirteenth of the rest
+			if !c.Thorough() && o.light && p.tag != "pem-lf-bare" && p.tag != "pem-crlf-both" && (pi+oi)%13 != 0 {
+				continue
+			}
 			// quick tier: the whole matrix for small objects (where text can double as BER), a sample otherwise
 			if !c.Thorough() && (!small || c05OddWidth(p.tag)) && !strings.HasPrefix(p.tag, "pem-") && (pi+oi)%7 != 0 {
 				continue
@@ -1073,7 +1087,7 @@ func genC05(c *Ctx) {
 			if (pi+oi)%3 == 0 {
 				name = c05_randName(r)
 			}
-			c05Insp(c, o.kind+":"+p.tag, name, p.data, refObs, p.inScope)
+			c05Insp(c, kind+":"+p.tag, name, p.data, refObs, p.inScope && !o.oos)
 			if (pi+oi)%11 == 0 {
 				c05Sniff(c, "pres", p.data)
 			}
@@ -1134,7 +1148,7 @@ func genC05(c *Ctx) {
 	}
 	for _, o := range objs {
 		for k := 0; k < nm; k++ {
-			if o.extra && !c.Thorough() && k >= 8 {
+			if !c.Thorough() && ((o.extra && k >= 8) || (o.light && k >= 2)) {
 				break
 			}
 			d, tag := mutateDER(r, o.der)
